@@ -207,6 +207,17 @@ def runUnnamed (args : List String) : String :=
     | _, _, _ => "bad-op"
   | _ => "bad-op"
 
+/-- `showunnamed <url> <extras ;-separated hex (normalized names) or -> <marker hex or none>`: `Display for UnnamedRequirement` -/
+def runShowUnnamed (args : List String) : String :=
+  match args with
+  | [url, extras, marker] =>
+    let hexList := fun (s : String) => if s == "-" then some [] else (s.splitOn ";").mapM charsOfHex
+    let m : Option (Option (List Char)) := if marker == "none" then some none else (charsOfHex marker).map some
+    match charsOfHex url, hexList extras, m with
+    | some u, some ex, some m => hexOfChars (showUnnamed u ex m)
+    | _, _, _ => "bad-op"
+  | _ => "bad-op"
+
 /-- `expand <text> <vars> <cwd>`: `expand_env_vars` -/
 def runExpand (args : List String) : String :=
   match args with
